@@ -7,6 +7,7 @@
 package zzverif
 
 import (
+	"runtime/debug"
 	"bytes"
 	"encoding/json"
 	"fmt"
@@ -250,6 +251,9 @@ func RunReplay(t *testing.T, harnesses map[string]func()) {
 						fmt.Println("REPLAY-CUT " + r.reason)
 					default:
 						fmt.Printf("REPLAY-PANIC %v\n", r)
+						if os.Getenv("ZZVERIF_STACK") != "" {
+							fmt.Printf("%s\n", debug.Stack())
+						}
 						if rf.Label == CrashLabel {
 							Violated = append(Violated, CrashLabel)
 						}
